@@ -207,12 +207,11 @@ Theorem builder_reads_back b ops1 o ops2 l :
   emitted_chain (bschema b1) o = Some l ->
   wf_op o -> Forall wf_op ops2 ->
   ~ sepA (qc b1) -> qc b1 <> DOT ->
-  Forall (quote_free (qc b1)) l ->
   exists post,
     out (run b (ops1 ++ o :: ops2)) = out b1 ++ render_chain (qo b1) (qc b1) l ++ post /\
     lex_chain (qo b1) (qc b1) (render_chain (qo b1) (qc b1) l ++ post) = Some (l, post).
 Proof.
-  intros b1 Hp He Hw Hws Hq Hd HF.
+  intros b1 Hp He Hw Hws Hq Hd.
   pose proof (keptb_after_call b1 o l Hp He Hw) as K0.
   pose proof (keptb_run _ ops2 (run_op b1 o) Hws K0) as K.
   destruct K as (s & a & E & Ha).
